@@ -154,10 +154,12 @@ Definition cstep (s : cst) (l : clabel) : cst :=
       | None => s
       end
   | CTimer g bo bestl =>
-      let w := wget g s in
-      let w' := wstep w (WTimer bo bestl) in
-      let news := skipn (length (w_dials w)) (w_dials w') in
-      fold_left (add_addr_job g (aget 0 g (c_gpeer s))) news (wput g w' s)
+      if g <? c_next s then        (* timers belong to workers that exist *)
+        let w := wget g s in
+        let w' := wstep w (WTimer bo bestl) in
+        let news := skipn (length (w_dials w)) (w_dials w') in
+        fold_left (add_addr_job g (aget 0 g (c_gpeer s))) news (wput g w' s)
+      else s
   | CBegin n => lim_do s (LBegin n)
   | CRes n r bestl =>
       match jget n s with
